@@ -67,6 +67,9 @@ def parse_errors(stderr, linemap, fname):
             continue
         head = b.split('\n', 1)[0]
         locs = [int(m.group(1)) for m in re.finditer(re.escape(os.path.basename(fname)) + r':(\d+):\d+', b)]
+        # secondary spans of the same diagnostic are printed as snippet lines `NNN | code` without a file prefix
+        # (e.g. the function body a failed trait postcondition belongs to)
+        locs += [int(m.group(1)) for m in re.finditer(r'(?m)^\s*(\d+) \|', b)]
         owner = None
         for ln in locs:
             for a, z, kind, label in linemap:
@@ -104,6 +107,7 @@ def run_unit(name, repo, workdir, expanded=None, rlimit=30, bless=False, threads
     res['functions_under_contract'] = U.functions_under_contract
     res['rewrites'] = U.rewrite_counts()
     res['lost_anchors'] = list(U.lost)
+    shapes = U.shapes()
     res['trusted'] = ['%s %s (line %d)' % h for h in scan_trusted(text)]
     flags = list(getattr(mod, 'VERUS_FLAGS', []))
     cmd = ['verus', fpath, '--output-json', '--time', '--rlimit', str(rlimit), '--num-threads', str(threads), '--multiple-errors', '4'] + flags
@@ -158,9 +162,16 @@ def run_unit(name, repo, workdir, expanded=None, rlimit=30, bless=False, threads
     # expected obligations
     oblig_path = os.path.join(VERIF, 'units', name + '.oblig')
     names = sorted(obl.keys())
+    shape_path = os.path.join(VERIF, 'units', name + '.shape')
     if bless:
         with open(oblig_path, 'w') as f:
             f.write('\n'.join(names) + '\n')
+        with open(shape_path, 'w') as f:
+            json.dump(shapes, f, indent=0, sort_keys=True)
+            f.write('\n')
+    base_shapes = json.load(open(shape_path)) if os.path.exists(shape_path) else None
+    changed = sorted(l for l in shapes if base_shapes is not None and shapes[l] != base_shapes.get(l)) if base_shapes is not None else []
+    res['shape_changed'] = changed
     expected = []
     if os.path.exists(oblig_path):
         expected = [l.strip() for l in open(oblig_path) if l.strip()]
@@ -190,10 +201,33 @@ def run_unit(name, repo, workdir, expanded=None, rlimit=30, bless=False, threads
             res['status'] = 'undecided'
             res['reason'] = 'failing obligations are not in the committed obligation list'
             return res
+        # a proof failure inside an item whose source changed shape (other rewrites apply, loops / closures added or
+        # removed, a ghost anchor lost) means the proof text no longer lines up with the code: undecided, not an alarm.
+        # Only failures located in items of unchanged shape are violations.
+        if base_shapes is None:
+            res['status'] = 'undecided'
+            res['reason'] = 'no committed shape profile for unit (run with --bless on the unchanged tree)'
+            return res
+        def in_changed(e):
+            return e['owner'] is not None and e['owner'][0] == 'item' and e['owner'][1] in changed
+        solid = [e for e in viol if not in_changed(e)]
+        if changed and not solid:
+            res['status'] = 'undecided'
+            res['reason'] = ('proof failed only inside code whose shape changed (%s): the proof text no longer lines up with it — not an alarm; '
+                             'the bounded stand-ins decide' % '; '.join(changed[:3]))
+            if res.get('lost_anchors'):
+                res['reason'] += ' [' + '; '.join(res['lost_anchors'][:3]) + ']'
+            return res
+        if changed:
+            keep = []
+            for fobj in res['failed']:
+                msgs = [e['text'] for e in solid if _owner_matches(e, fobj['obligation'])]
+                if msgs:
+                    fobj['messages'] = msgs[:4]
+                    keep.append(fobj)
+            res['failed'] = keep or res['failed']
         res['status'] = 'violation'
-        res['reason'] = '; '.join(sorted(set(e['head'] for e in viol))[:4])
-        if res.get('lost_anchors'):
-            res['reason'] += ' [code changed shape: ' + '; '.join(res['lost_anchors'][:3]) + ']'
+        res['reason'] = '; '.join(sorted(set(e['head'] for e in solid))[:4])
         return res
     if vr.get('encountered-error') and not flags:
         res['status'] = 'undecided'
